@@ -67,3 +67,17 @@ func TimeoutVsPut(procs int, putFirst bool, sync bool) hx.Sx {
 	ops = append(ops, hx.L(hx.I(1), hx.I(30)), ev(30, "p"))
 	return hx.L(cfg, hx.L(hx.L(ops...)), hx.L())
 }
+
+// DeadQOvertake: a retriable output with a dead queue, 3 workers, batches of one event.  Batches 0 and 1 are still
+// inside OutFn (slow sends) when batch 2 exhausts its retries and reaches its commit turn; then batch 1 returns,
+// before batch 0.  Batch 2 has to wait for its turn like any other (its commit section is empty), and batch 1 must
+// not commit before batch 0 — whatever the dead queue does with the events of batch 2.
+func DeadQOvertake(procs int, slow0, slow1 int) hx.Sx {
+	ev := func(off int) hx.Sx {
+		return hx.L(hx.I(0), hx.I(1), hx.I(off), hx.S(`{"stream":"a","ops":"","m":""}`))
+	}
+	cfg := hx.L(hx.I(procs), hx.I(0), hx.I(24), hx.I(40), hx.I(0), hx.I(2), hx.I(3), hx.I(1), hx.I(10), hx.I(0), hx.I(1), hx.I(0))
+	ops := []hx.Sx{ev(10), hx.L(hx.I(1), hx.I(5)), ev(20), hx.L(hx.I(1), hx.I(5)), ev(30), hx.L(hx.I(1), hx.I(slow0 + 40)), ev(40)}
+	plan := hx.L(hx.L(hx.I(slow0), hx.I(0)), hx.L(hx.I(slow1), hx.I(0)), hx.L(hx.I(0), hx.I(2)), hx.L(hx.I(0), hx.I(0)))
+	return hx.L(cfg, hx.L(hx.L(ops...)), plan)
+}
